@@ -344,6 +344,28 @@ def run(b, tier, seed, findings, known_seen):
                     fails.append(f)
     finally:
         icalendar.timezone.tzp.use_default()
+    # windows whose FIRST or LAST day is the day of a change of the source zone (the edges of the window meet an onset), both providers
+    for prov in ("zoneinfo", "pytz"):
+        icalendar.timezone.tzp.use(prov)
+        try:
+            for k, day in (("Europe/Berlin", date(2024, 3, 31)), ("Europe/Berlin", date(2023, 10, 29)), ("America/New_York", date(2024, 11, 3)),
+                           ("America/New_York", date(2024, 3, 10)), ("Australia/Lord_Howe", date(2024, 4, 7)), ("Asia/Tehran", date(2020, 3, 21))):
+                for first, last in ((day, date(day.year + 2, day.month, 1)), (date(day.year - 2, day.month, 1), day),
+                                    (day - timedelta(days=1), date(day.year + 1, 1, 1)), (date(day.year - 1, 1, 1), day + timedelta(days=1))):
+                    cases += 1
+                    try:
+                        res = check(prov, k, first, last, rnd, findings, grid=24)
+                    except Exception as e:  # noqa
+                        res = [(f"{k} {first}..{last}: {type(e).__name__}: {e}", None)]
+                    for m, cls in res:
+                        f = {"witness": {"zone": k, "first": first.isoformat(), "last": last.isoformat(), "provider": prov}, "detail": f"[{prov}] " + (f"<{cls}> " if cls else "") + m}
+                        fid = match(f, findings, cls)
+                        if fid:
+                            known_seen.append(f"{fid['id']} {fid['what']} (witness {k} {first}..{last} [{prov}]: {m[:120]})")
+                        elif len(fails) < 30:
+                            fails.append(f)
+        finally:
+            icalendar.timezone.tzp.use_default()
     b.cases = cases
     b.nontrivial = cases
     b.failures = fails
